@@ -150,6 +150,27 @@ func withC06(f func(cx *Ctx) []Obligation) func(cx *Ctx) []Obligation {
 }
 
 func init() {
+	registerProp(&propDef{ID: "C03", Rules: rulesC03, Floor: 4,
+		Expl: "In CircuitFixed.Define: the 16-public-inputs refusal; every element of the public [4] array is asserted equal to a loop accumulator acc' = limb + M·acc (recurrence shape extracted from the SSA phi), whose limbs are elements [j·T,(j+1)·T) of the inner proof's public inputs (partition of all 16); the same slice element is range-checked on every path to a width w with 2^w ≤ M (injectivity: HashNoPad reduces inputs mod p, so the inner proof fixes limbs only mod p); M^T ≤ 2^128.",
+		Rule: "one obligation per clause O3.1–O3.4"})
+	registerProp(&propDef{ID: "C04", Rules: rulesC04, Floor: 2,
+		Expl: "For every circuit type of the module whose Define reaches VerifierChip.Verify, the verifierData argument is definitely a field of the circuit and that field's gnark visibility (struct tag parsed like gnark's schema walker) is '-' or public, i.e. not chosen by the prover. Liveness of the key (digest absorbed first, ConstantSigmasCap is caps[0]) is decided under C11 and C12.",
+		Rule: "one obligation per circuit type reaching the verifier"})
+	registerProp(&propDef{ID: "C11", Rules: rulesC11, Floor: 12,
+		Expl: "Event-sequence analysis of the challenge derivation reachable from VerifierChip.Verify: the calls to the two transcript primitives (ObserveElement / GetChallenge) are extracted with their static call paths in control-flow order; every squeeze is identified by the challenge field that receives its result (result tagging by call path), every observation by the proof data it depends on; the collapsed sequence must equal plonky2's order; every event executes on every path inside full-range loops over the observed lists; the openings' content order (append-chain content-sequence analysis) is the reference order at both uses; ObserveElement must-stores an empty output buffer. The sponge arithmetic over arbitrary histories is not decided.",
+		Rule: "one obligation for the order, one per distinct event (binding/coverage), one for the openings order, one for the buffer reset"})
+	registerProp(&propDef{ID: "C01", Floor: 110, Rules: func(cx *Ctx) []Obligation {
+		obs := rulesC01Own(cx)
+		for _, f := range []func(*Ctx) []Obligation{rulesC11, rulesC12, rulesC13, rulesC14, rulesC16, rulesC17, rulesC20, rulesC06} {
+			obs = append(obs, f(cx)...)
+		}
+		return obs
+	},
+		Expl: "Structural necessary conditions of 'tampered or mismatched proofs are rejected': (own) both circuits call VerifierChip.Verify on every path with their own fields; Verify calls the PLONK check and FRI verification on every path with the derived challenges, HashNoPad(publicInputs), the proof's openings/opening proof and the caps in order; every input leaf of the proof, the verifier data and the public inputs (enumerated from the types) influences at least one must-executed constraint; (union) the obligations of C11 (binding and order of the transcript), C12, C13, C14, C16, C17, C20 and C06. Decides that every input is bound and every verification equation is emitted on every path for every element — not that the equations are the right polynomials.",
+		Rule: "own wiring/liveness obligations plus the union of the listed properties' obligations"})
+	registerProp(&propDef{ID: "C20", Rules: rulesC20, Floor: 20,
+		Expl: "T3 guard table: 18 refusals reachable from VerifierChip.Verify keyed by the compared quantities (lengths of proof lists vs configuration values, normalised to 'continues iff X op Y'), each must execute on every path and for every element of the list it validates (full-range loops); plus the 16-public-inputs refusal of CircuitFixed.Define and the hiding refusal of ReadCommonCircuitData. Decides presence, operator and coverage of the guards; that a shape change not covered by a guard is rejected by the equations is not decided.",
+		Rule: "one obligation per guard of the hand-confirmed table (DESIGN appendix A.4); the same comparison made at several sites must be found at each"})
 	registerProp(&propDef{ID: "C17", Rules: withC06(rulesC17), Floor: 33,
 		Expl: "T2 field coverage generated from go/types: for every Goldilocks-typed leaf of variables.Proof (both coordinates of extension values) the canonical range check gl.Chip.RangeCheck is applied to the element itself on every path from VerifierChip.Verify, inside full-range loops over the complete field (no narrowing slice, no conditional, no early exit). That the canonical range check is a real check in every backend is C06 (included). Adding a Goldilocks field to the proof structure without extending the sweep is a violation by construction.",
 		Rule: "one obligation per leaf access path and coordinate (enumerated from the type), each discharged by a distinct call path"})
